@@ -697,7 +697,8 @@ def _check_compute_checksum_shape(rep, M, ce, fn, file, Ex):
     it = loop.iter
     octet = None
     f16 = vars.fresh("fcs", 16)
-    env2 = {acc: f16}
+    env2 = dict(env)  # (other locals of the prologue - an alias of the table, a precomputed bound - stay visible in the loop body)
+    env2[acc] = f16
     idxvar = None
     if (isinstance(it, ast.Call) and isinstance(it.func, ast.Name) and it.func.id == "range" and len(it.args) == 2 and isinstance(loop.target, ast.Name)):
         lo, hi = _lin(it.args[0], names, aliases), _lin(it.args[1], names, aliases)
@@ -728,7 +729,8 @@ def _check_compute_checksum_shape(rep, M, ce, fn, file, Ex):
         raise Undecided("return inside compute_checksum loop")
     if idxvar is not None:
         reads = ex2.octet_reads
-        if len(reads) != 1 or reads[0] != (data, idxvar):
+        n_src = sum(1 for n_ in ast.walk(ast.Module(body=loop.body, type_ignores=[])) if isinstance(n_, ast.Subscript) and isinstance(n_.value, ast.Name) and n_.value.id == data)
+        if set(reads) != {(data, idxvar)} or n_src != 1:
             rep.violation("O7", at, "octet-read", "loop body does not read exactly data[<loop index>] once", file, loop.lineno, witness=str(reads))
             return
         octet = BV([1 << (1 + vars.n - 8 + k) for k in range(8)])
